@@ -14,7 +14,8 @@ Inductive callid :=
 | KSetClosed | KSetClosing | KSetOpen | KSetOpening
 | KAppendExc | KStopConsuming | KRemoveTags | KClearInbound
 | KNextId | KStoreChannel | KChannelOpen | KTestOpen | KTestClosed
-| KRegisterWrite | KTagsInPlace | KTagsRebind | KOther.
+| KRegisterWrite | KTagsInPlace | KTagsRebind
+| KTestRunning | KClearRunning | KTimerCreate | KTimerStart | KTimerCancel | KSendHeartbeat | KOther.
 
 Inductive tok :=
 | TWith (l : lockid) | TEndWith
@@ -44,6 +45,8 @@ Definition callid_eqb (a b : callid) : bool :=
   | KClearInbound, KClearInbound | KNextId, KNextId | KStoreChannel, KStoreChannel
   | KChannelOpen, KChannelOpen | KTestOpen, KTestOpen | KTestClosed, KTestClosed
   | KRegisterWrite, KRegisterWrite | KTagsInPlace, KTagsInPlace | KTagsRebind, KTagsRebind
+  | KTestRunning, KTestRunning | KClearRunning, KClearRunning | KTimerCreate, KTimerCreate
+  | KTimerStart, KTimerStart | KTimerCancel, KTimerCancel | KSendHeartbeat, KSendHeartbeat
   | KOther, KOther => true
   | _, _ => false
   end.
